@@ -39,12 +39,14 @@ STRUCTS = {
     'triples': [('A', 'B', 'C'), ('B', 'C', 'D')],
     'triples-single': [('A', 'B', 'C'), ('B', 'C', 'D'), ('C',)],
     'triples-pair': [('A', 'B', 'C'), ('B', 'C', 'D'), ('C', 'A')],
+    # disjoint cliques each measured several times at different noise levels
+    'disjoint-dup': [('A', 'B'), ('C', 'D'), ('A', 'B'), ('C', 'D'), ('A', 'B')],
     # non-empty measurement sets none of whose queries can express the overall count (partial cells, differences)
     'undetermined': [('A', 'B'), ('C', 'D')],
     'undetermined-loop': [('A', 'B'), ('B', 'C'), ('C', 'A')],
 }
 KINDS_FOR = {'undetermined': ['partial', 'diff'], 'undetermined-loop': ['diff', 'partial', 'diff']}
-DISJOINT = ['single', 'disjoint-pair', 'disjoint-singles-pair']
+DISJOINT = ['single', 'disjoint-pair', 'disjoint-singles-pair', 'duplicated', 'disjoint-dup']
 ITERS = [1, 2, 3, 5, 20, 60, 200, 600]
 ORACLES = ['convex', 'approx', 'pairwise']
 
@@ -67,6 +69,9 @@ def jobs(tier, seed):
                             'seed': seed})
             if sname in DISJOINT or tier == 'thorough':
                 out.append({'s': sname, 'oracle': orc, 'noise': 'low', 'iters': [600], 'totals': ['given'], 'seed': seed})
+            # a supplied total below one record
+            if sname in ('single', 'chain', 'disjoint-pair', 'loop3') or tier == 'thorough':
+                out.append({'s': sname, 'oracle': orc, 'noise': 'low', 'iters': [20, 60] + ([600] if sname in DISJOINT else []), 'totals': ['given'], 'seed': seed, 'T': 0.25})
             # large total relative to the noise: many step halvings/restarts are needed before the first accepted step
             if sname in ('single', 'chain', 'disjoint-pair', 'nested', 'triples-single', 'triples') or tier == 'thorough':
                 out.append({'s': sname, 'oracle': orc, 'noise': 'low', 'iters': [20, 26, 60] if tier == 'quick' else [20, 23, 26, 60, 200],
